@@ -119,16 +119,24 @@ CLAIMED = {
     ),
     "C19": dict(
         level="proof",
-        text="PARTIAL. Lean theorems cover the data-carrying part of the printer/parser pair: lex_unit / string_print_lex (for EVERY string value - "
-             "quotes, backslashes, line terminators, control characters, U+2028/9, lone surrogates anywhere - lexing the literal the printer "
-             "writes gives the value back and stops after the closing quote), escUnit_one_line (the printed literal never contains a raw line "
-             "terminator or control character). The model of push_escaped is tied to the printer by correspondence on generated string values. "
-             "The structural part of the property is explored on the engine itself, not proved: for a construct corpus, generated programs, "
-             "token-level mutations and noise texts - the parser returns (no panic), an error position lies inside the text, the printed "
-             "program parses again, parse-print is a fixpoint from the first printed form on (equal text and equal AST), the printed program "
-             "evaluates to the same trace, and parsing interns only substrings of the text (hook).",
-        technique="Lean 4 round-trip proof for printed string literals + correspondence with the printer; engine-level exploration (parse/print/re-parse fixpoint, trace equality, error positions, interner contents) for the structural part",
-        note="The grammar itself is not modelled: precedence/parentheses, statements, templates, regular expressions and numeric literals are only explored; parser termination is observed, not proved.",
+        text="PARTIAL. Two Lean models. (1) The data-carrying part of the printer/parser pair: lex_unit / string_print_lex (for EVERY string "
+             "value - quotes, backslashes, line terminators, control characters, U+2028/9, lone surrogates anywhere - lexing the literal the "
+             "printer writes gives the value back and stops after the closing quote), escUnit_one_line (the printed literal never contains a raw "
+             "line terminator or control character); tied to the printer by correspondence on generated string values. (2) The structural core: "
+             "a precedence grammar (numbers, unary minus, + - * /, parentheses) with EXPLICIT parenthesis nodes as in boa's AST, the printer that "
+             "writes the nodes in order and the recursive-descent parser with one loop per precedence level. Theorems: good / parse_print (for "
+             "every well-formed tree of any depth and width, parsing the printed tokens returns the tree), built / parse_wf (every tree the parser "
+             "builds is well-formed: operands of an operator bind at least as tightly on the left and strictly tighter on the right), "
+             "parse_print_parse (for EVERY accepted token sequence, print-then-parse is the identity from the first parse on). Tied to boa by "
+             "correspondence: on generated and mutated token sequences boa's parser must accept exactly what the model accepts (inside the "
+             "model's alphabet), build the same tree shape (dumped by the harness), and its print/re-parse must be a fixpoint. The rest of the "
+             "grammar is explored on the engine itself, not proved: for a construct corpus, generated programs, token-level mutations and noise "
+             "texts - the parser returns (no panic), an error position lies inside the text, the printed program parses again, parse-print is a "
+             "fixpoint from the first printed form on (equal text and equal AST), the printed program evaluates to the same trace, and parsing "
+             "interns only substrings of the text (hook).",
+        technique="Lean 4 proofs: round trip of printed string literals; print/parse identity and idempotence for a precedence grammar with explicit parentheses (structural induction with fuel bounds) + correspondence of both models with boa's printer and parser (values, tree shapes, verdicts); engine-level exploration (parse/print/re-parse fixpoint, trace equality, error positions, interner contents) for the rest of the grammar",
+        note="Outside the Lean models: statements, assignment/conditional/logical operators, templates, regular expressions, numeric literal forms, "
+             "ASI; parser termination on arbitrary text is observed, not proved.",
     ),
     "C16": dict(
         level="proof",
